@@ -238,7 +238,7 @@ class _ExprInline(ast.NodeTransformer):
         f = n.func
         fi = None
         if isinstance(f, ast.Name):
-            fi = self.mi.funcs.get(f.id)
+            fi = self.caller.nested.get(f.id) or (self.caller.outer.nested.get(f.id) if self.caller.outer is not None else None) or self.mi.funcs.get(f.id)
         elif isinstance(f, ast.Attribute) and isinstance(f.value, ast.Name) and self.caller.cls is not None and f.value.id in ("self", "cls", self.caller.cls.name):
             fi = self.caller.cls.methods.get(f.attr)
         if fi is None or fi.qname not in self.cands or fi is self.caller:
@@ -263,19 +263,31 @@ def inline_new_helpers(prog):
     """rewrite function bodies in place; returns the list of (caller, helper) expansions performed"""
     known = known_functions()
     done = []
-    # (0) pure expression helpers are substituted wherever they are called
+    # (0) pure expression helpers are substituted wherever they are called (helpers that use helpers: a few rounds)
     for mi in list(prog.modules.values()):
-        ecands = {}
-        for fi in prog.funcs.values():
-            if fi.mod is mi and fi.qname not in known:
-                e = _expression_helper(fi)
-                if e is not None:
-                    ecands[fi.qname] = e
-        if ecands:
-            for caller in [f for f in prog.funcs.values() if f.mod is mi and f.qname not in ecands]:
-                tr = _ExprInline(mi, caller, ecands, done)
+        for _round in range(3):
+            ecands = {}
+            for fi in prog.funcs.values():
+                if fi.mod is mi and fi.qname not in known:
+                    e = _expression_helper(fi)
+                    if e is not None:
+                        ecands[fi.qname] = e
+            if not ecands:
+                break
+            before = len(done)
+            for caller in [f for f in prog.funcs.values() if f.mod is mi]:
+                tr = _ExprInline(mi, caller, {q: e for q, e in ecands.items() if q != caller.qname}, done)
                 caller.node.body = [tr.visit(st) for st in caller.node.body]
                 ast.fix_missing_locations(caller.node)
+            if len(done) == before:
+                break
+        # closures that were only ever used as expressions are dropped from their outer function
+        for fi in [f for f in prog.funcs.values() if f.mod is mi and f.outer is not None and f.qname not in known]:
+            if any(h == fi.qname for _, h in done):
+                outer = fi.outer
+                used = any(isinstance(n, ast.Name) and n.id == fi.name for st in outer.node.body if st is not fi.node for n in ast.walk(st))
+                if not used:
+                    outer.node.body = [st for st in outer.node.body if st is not fi.node]
     for mi in list(prog.modules.values()):
         cands = {}
         for fi in prog.funcs.values():
@@ -300,8 +312,53 @@ def inline_new_helpers(prog):
                 return cands[fi.qname]
             return None
 
+        def hoist(st, caller):
+            """f(h(x)) / y = g(h(x)) / return g(h(x)): a call to an unknown multi-statement helper that sits inside a simple
+            statement is bound to a temporary first, so that it can be expanded as an assignment"""
+            if not isinstance(st, (ast.Expr, ast.Assign, ast.Return)) or st.value is None:
+                return [st]
+            top = st.value
+            pre = []
+            k = 0
+
+            class H(ast.NodeTransformer):
+                def visit_Lambda(self, n):
+                    return n
+
+                def visit_ListComp(self, n):
+                    return n
+
+                visit_SetComp = visit_DictComp = visit_GeneratorExp = visit_ListComp
+
+                def visit_IfExp(self, n):
+                    n.test = self.visit(n.test)
+                    return n  # branches are evaluated conditionally: leave them
+
+                def visit_BoolOp(self, n):
+                    n.values[0] = self.visit(n.values[0])
+                    return n
+
+                def visit_Call(self, n):
+                    nonlocal k
+                    self.generic_visit(n)
+                    if n is top:
+                        return n
+                    t = target(n, caller)
+                    if t is None:
+                        return n
+                    k += 1
+                    name = f"{t[0].name.strip('_')}_value{k if k > 1 else ''}{SUFFIX}"
+                    pre.append(ast.Assign(targets=[ast.Name(id=name, ctx=ast.Store())], value=n, lineno=st.lineno, col_offset=0))
+                    return ast.copy_location(ast.Name(id=name, ctx=ast.Load()), n)
+
+            st.value = H().visit(st.value)
+            for x in pre:
+                ast.fix_missing_locations(x)
+            return pre + [st]
+
         def rewrite(stmts, caller, depth=0):
             out = []
+            stmts = [y for x in stmts for y in (hoist(x, caller) if depth < 3 else [x])]
             for st in stmts:
                 for field in ("body", "orelse", "finalbody"):
                     blk = getattr(st, field, None)
@@ -415,7 +472,11 @@ def inline_new_helpers(prog):
                         caller.node.body = [st for st in caller.node.body if not (isinstance(st, (ast.FunctionDef, ast.AsyncFunctionDef)) and st.name == nm)]
             ast.fix_missing_locations(caller.node)
     if done:
-        from .normalize import split_tuple_assigns
+        from .normalize import rows_comprehension_to_loop, split_tuple_assigns
+
+        for f in prog.funcs.values():
+            if any(c == f.qname for c, _ in done):
+                rows_comprehension_to_loop(f.node)
 
         touched = {c for c, _ in done}
         for f in prog.funcs.values():
